@@ -99,6 +99,17 @@ fn c02_live(ctx: &VariantCtx) -> WorldOutcome {
     })
 }
 
+fn c16_cluster(ctx: &VariantCtx) -> WorldOutcome {
+    cluster_variant(ctx, |p, _| {
+        p.fault_free = true;
+        p.asym_delays = true;
+        p.min_ms = 5_000;
+        p.max_ms = 8_000;
+        p.min_n = 4;
+        p.max_n = 7;
+    })
+}
+
 fn c18_cluster(ctx: &VariantCtx) -> WorldOutcome {
     cluster_variant(ctx, |p, _| {
         p.standstill = true;
@@ -264,7 +275,10 @@ pub fn variants(property: &str, _tier: Tier) -> Vec<Variant> {
             Variant { name: "repair", weight: 1, max_events: 150_000, run: c14 },
         ],
         "C13" => vec![Variant { name: "dissem-blockstore", weight: 1, max_events: 100_000, run: c13 }],
-        "C16" => vec![Variant { name: "dissem-routing", weight: 1, max_events: 400_000, run: c16 }],
+        "C16" => vec![
+            Variant { name: "dissem-routing", weight: 60, max_events: 400_000, run: c16 },
+            Variant { name: "cluster-fault-free-delivery", weight: 1, max_events: 800_000, run: c16_cluster },
+        ],
         "C17" => vec![Variant { name: "sampler-callers", weight: 1, max_events: 400_000, run: c17 }],
         "C03" | "C04" | "C06" => vec![Variant { name: "pool-votes", weight: 1, max_events: 100_000, run: vw }],
         "C07" | "C08" => vec![Variant { name: "pool-certs", weight: 1, max_events: 100_000, run: kw }],
@@ -443,6 +457,60 @@ fn standstill_post(cfg: &ClusterCfg, obs: &Observer, timeline: &[(u64, Vec<u64>)
     kernel::probe_n("c18_standstill_rebroadcasts_checked", checked);
 }
 
+/// C16 in the cluster (fault-free, real nodes and their real message loops): every shred a leader
+/// sends reaches every other validator at least once, whatever the (loss-free) delays.
+fn delivery_post(cfg: &ClusterCfg, obs: &Observer) {
+    use std::collections::{BTreeMap, BTreeSet};
+    let n = cfg.n;
+    // (slot, slice) -> shred index -> nodes it was addressed to
+    let mut seen: BTreeMap<(u64, u64), BTreeMap<u64, BTreeSet<usize>>> = BTreeMap::new();
+    {
+        let c = obs.net.lock().unwrap();
+        for t in c.taps.iter() {
+            if t.from_iface != crate::net::Iface::Dissem || t.bytes.len() < crate::wire::SHRED_OFF_DATALEN {
+                continue;
+            }
+            let slot = crate::wire::get_u64(&t.bytes, crate::wire::SHRED_OFF_SLOT);
+            let slice = crate::wire::get_u64(&t.bytes, crate::wire::SHRED_OFF_SLICE);
+            let idx = crate::wire::get_u64(&t.bytes, crate::wire::SHRED_OFF_INDEX);
+            let e = seen.entry((slot, slice)).or_default().entry(idx).or_default();
+            for p in &t.to_ports {
+                e.insert(crate::net::node_of(*p));
+            }
+        }
+    }
+    let max_slot = seen.keys().map(|k| k.0).max().unwrap_or(0);
+    let mut checked = 0u64;
+    for ((slot, slice), by_idx) in &seen {
+        // blocks still in flight at the end of the run are not judged
+        if *slot + 8 > max_slot || *slot == 0 {
+            continue;
+        }
+        let leader = ((slot / 4) % n as u64) as usize;
+        for idx in 0..alpenglow::shredder::TOTAL_SHREDS as u64 {
+            let got = by_idx.get(&idx).cloned().unwrap_or_default();
+            for v in 0..n {
+                if v == leader {
+                    continue;
+                }
+                checked += 1;
+                if !got.contains(&v) {
+                    kernel::violation(
+                        "C16",
+                        format!("cluster:shred-not-delivered:{:?}", cfg.dissem).split('(').next().unwrap_or("cluster:shred-not-delivered").to_string(),
+                        format!(
+                            "fault-free run with {:?} (n={n}, link delays {:?}): shred {idx} of slice {slice} in slot {slot} (leader {leader}) was never sent to validator {v}; it was sent to {got:?}",
+                            cfg.dissem, cfg.net.link_extra_ms
+                        ),
+                    );
+                    return;
+                }
+            }
+        }
+    }
+    kernel::probe_n("c16_cluster_shred_deliveries_checked", checked);
+}
+
 /// Maps a panic inside the code under test to the property it violates.
 pub fn classify_panic(p: &PanicRecord, checked: &str) -> (String, String) {
     let site = p.location.rsplit('/').next().unwrap_or(&p.location).to_string();
@@ -484,6 +552,10 @@ pub fn cluster_post(
     }
     if profile.standstill {
         standstill_post(cfg, obs, timeline);
+        return;
+    }
+    if profile.asym_delays {
+        delivery_post(cfg, obs);
         return;
     }
     if !profile.liveness {
